@@ -513,6 +513,10 @@ func rulesExtract(p *Prog, r *Report, eng *Engine) {
 		pos token.Pos
 	}
 	helpers := map[*ssa.Function]bool{}
+	// the node being printed: the printer's receiver, or a helper's parameter bound to it
+	isPrinterNode := func(v ssa.Value) bool {
+		return v == ssa.Value(pr.Params[0]) || qz.prov(v, 0) == "param:"+pr.Params[0].Name()
+	}
 	var collect func(cur *ssa.Function, depth int)
 	collect = func(cur *ssa.Function, depth int) {
 		var parts []textPart
@@ -526,7 +530,7 @@ func rulesExtract(p *Prog, r *Report, eng *Engine) {
 				case *ssa.Call:
 					callee := t.Call.StaticCallee()
 					if callee != nil && p.InModule(callee) && len(callee.Blocks) > 0 && (isStringType(t.Type()) || takesTextBuilder(callee)) && depth < 3 && !helpers[callee] &&
-						!(isNodeMethod(callee, nodeType(p)) && len(t.Call.Args) == 1 && t.Call.Args[0] == pr.Params[0]) {
+						!(isNodeMethod(callee, nodeType(p)) && len(t.Call.Args) == 1 && isPrinterNode(t.Call.Args[0]) && !buildsText(callee)) {
 						// a helper that renders a part of the text (n.lic.reconstructedString()): its parts are the
 						// printer's parts, with its parameters bound to what the printer passes
 						helpers[callee] = true
@@ -591,7 +595,7 @@ func rulesExtract(p *Prog, r *Report, eng *Engine) {
 					// *accessor(n) : accessor is a node method returning *string
 					okSrc := false
 					if ld, isLd := op.(*ssa.UnOp); isLd && ld.Op == token.MUL {
-						if c, isCall := ld.X.(*ssa.Call); isCall && c.Call.StaticCallee() != nil && isNodeMethod(c.Call.StaticCallee(), nodeType(p)) && len(c.Call.Args) == 1 && c.Call.Args[0] == pr.Params[0] {
+						if c, isCall := ld.X.(*ssa.Call); isCall && c.Call.StaticCallee() != nil && isNodeMethod(c.Call.StaticCallee(), nodeType(p)) && len(c.Call.Args) == 1 && isPrinterNode(c.Call.Args[0]) {
 							okSrc = true
 							fieldsUsed[c.Call.StaticCallee().Name()] = true
 						}
@@ -601,7 +605,7 @@ func rulesExtract(p *Prog, r *Report, eng *Engine) {
 						}
 					}
 					// accessor(n) returning the string by value
-					if c, isCall := op.(*ssa.Call); isCall && c.Call.StaticCallee() != nil && isNodeMethod(c.Call.StaticCallee(), nodeType(p)) && len(c.Call.Args) == 1 && c.Call.Args[0] == pr.Params[0] && isStringType(c.Type()) {
+					if c, isCall := op.(*ssa.Call); isCall && c.Call.StaticCallee() != nil && isNodeMethod(c.Call.StaticCallee(), nodeType(p)) && len(c.Call.Args) == 1 && isPrinterNode(c.Call.Args[0]) && isStringType(c.Type()) {
 						okSrc = true
 						fieldsUsed[c.Call.StaticCallee().Name()] = true
 					}
@@ -857,6 +861,29 @@ func takesTextBuilder(fn *ssa.Function) bool {
 		switch prm.Type().String() {
 		case "*strings.Builder", "*bytes.Buffer":
 			return true
+		}
+	}
+	return false
+}
+
+// buildsText: fn concatenates strings or writes into a text builder (a rendering helper, as opposed to an
+// accessor that hands out a field).
+func buildsText(fn *ssa.Function) bool {
+	for _, b := range fn.Blocks {
+		for _, in := range b.Instrs {
+			switch t := in.(type) {
+			case *ssa.BinOp:
+				if t.Op == token.ADD && isStringType(t.Type()) {
+					return true
+				}
+			case *ssa.Call:
+				if c := t.Call.StaticCallee(); c != nil {
+					switch c.String() {
+					case "(*strings.Builder).WriteString", "(*bytes.Buffer).WriteString", "(*strings.Builder).WriteByte", "(*bytes.Buffer).WriteByte", "(*strings.Builder).WriteRune", "(*bytes.Buffer).WriteRune":
+						return true
+					}
+				}
+			}
 		}
 	}
 	return false
